@@ -390,6 +390,18 @@ impl HalfConnection {
 
         loop {
             if self.pending_queue.is_empty() {
+                // Leave packets on the send queue unless a fragment can actually be sent, so that
+                // TimeSensitive packets which go stale in the meantime are dropped by emit_packet()
+                match dfe.check_push() {
+                    Err(emit::DataPushError::WindowLimited) => {
+                        // Being window-limited does not preclude further sends
+                        dfe.finalize();
+                        return Ok(());
+                    }
+                    Err(emit::DataPushError::SizeLimited) => return Err(()),
+                    Ok(_) => (),
+                }
+
                 if let Some((packet_rc, resend)) = self.packet_sender.emit_packet(flush_id) {
                     let pending_packet_ref = packet_rc.borrow();
 
